@@ -240,6 +240,9 @@ class _Tunnel(Interface):
         try:
             await self._disconnect_request()
         finally:
+            # a frame that was waiting for its acknowledgement may have given up and
+            # started a reconnect while the DisconnectRequest was pending
+            self._stop_reconnect()
             self.transport.stop()
 
     ####################
@@ -533,6 +536,13 @@ class UDPTunnel(_Tunnel):
                     return
 
                 if self._reconnect_task is None:
+                    if self.communication_channel is None:
+                        # the tunnel was closed (disconnect()) while this frame was waiting for its
+                        # acknowledgement - don't start a reconnect for a connection the user ended
+                        raise CommunicationError(
+                            "Sending TunnellingRequest failed twice. Tunnel was closed.",
+                            True,
+                        )
                     self._tunnel_lost()
                 if self._reconnect_task is None:
                     # _tunnel_lost() sets self._reconnect_task when auto-reconnect is True
